@@ -115,3 +115,335 @@ Proof.
   rewrite (plus_cos t (tt_off ty)) by (unfold SB, int64, min64, max64 in *; lia).
   cbn [bind]. rewrite cstr_from_ok by exact Ha. reflexivity.
 Qed.
+
+(* ================================================================== *)
+(* Facts packed in the certificate zone_ok                             *)
+
+Definition absf (z : zone) (tr : transition) : ztr :=
+  mkZT (tr_time tr) (off_of z (tr_type tr)) (tr_type tr).
+Definition absl (z : zone) : list ztr := map (absf z) (z_trans z).
+Definition doff (z : zone) : Z := off_of z (z_default z).
+
+Lemma abs_zone_eq z : abs_zone z = mkZZ (absl z) (doff z) (z_default z).
+Proof. reflexivity. Qed.
+
+Lemma absl_nth z i : nth_error (absl z) i = option_map (absf z) (nth_error (z_trans z) i).
+Proof. unfold absl. apply nth_error_map. Qed.
+
+Lemma absl_length z : length (absl z) = length (z_trans z).
+Proof. unfold absl. apply map_length. Qed.
+
+Lemma last_opt_nth {A} (l : list A) x : last_opt l = Some x ->
+  nth_error l (length l - 1) = Some x /\ (0 < length l)%nat.
+Proof.
+  unfold last_opt. intros H. destruct (rev l) as [|y r] eqn:E; [discriminate|].
+  inversion H; subst y. clear H.
+  assert (l = rev r ++ [x]) as ->.
+  { rewrite <- (rev_involutive l), E. reflexivity. }
+  rewrite app_length. cbn [length].
+  replace (length (rev r) + 1 - 1)%nat with (length (rev r)) by lia.
+  split; [|lia]. rewrite nth_error_app2 by lia. rewrite Nat.sub_diag. reflexivity.
+Qed.
+
+Record zfacts (z : zone) : Prop := mkZF {
+  zf_ne : z_trans z <> [];
+  zf_types : forall ty, In ty (z_types z) -> type_ok z ty = true;
+  zf_dflt : idx_ok z (z_default z) = true;
+  zf_trs : forall tr, In tr (z_trans z) ->
+     idx_ok z (tr_type tr) = true /\ - 2 ^ 59 <= tr_time tr <= 2 ^ 60;
+  zf_civ : civils_ok z (doff z) (z_trans z) = true;
+  zf_wf : WF (doff z) (absl z);
+  zf_ti : times_increasing (absl z) = true;
+  zf_last : exists l, last_opt (z_trans z) = Some l /\ 0 <= tr_time l;
+  zf_first : exists f r, z_trans z = f :: r /\ tr_time f < 0
+}.
+
+Lemma zone_ok_facts z : zone_ok z = true -> zfacts z.
+Proof.
+  unfold zone_ok. rewrite !andb_true_iff.
+  intros [[[[[[[H1 H2] H3] H4] H5] H6] H7] H8].
+  split.
+  - destruct (z_trans z); [discriminate|congruence].
+  - rewrite forallb_forall in H2. exact H2.
+  - exact H3.
+  - rewrite forallb_forall in H4. intros tr Hin. specialize (H4 tr Hin).
+    rewrite !andb_true_iff, !Z.leb_le in H4. tauto.
+  - exact H5.
+  - rewrite abs_zone_eq in H6. apply wfz_WF in H6. exact H6.
+  - rewrite abs_zone_eq in H6. unfold wfz in H6. rewrite !andb_true_iff in H6.
+    cbn [zz_tr] in H6. tauto.
+  - destruct (last_opt (z_trans z)) as [l|]; [|discriminate].
+    exists l. split; auto. apply Z.leb_le; exact H7.
+  - destruct (z_trans z) as [|f r]; [discriminate|].
+    exists f, r. split; auto. apply Z.ltb_lt; exact H8.
+Qed.
+
+(* a valid type index *)
+Lemma type_facts z i : zfacts z -> idx_ok z i = true ->
+  exists ty, nth_res (z_types z) i = OK ty /\ tt_off ty = off_of z i /\
+    -86400 <= off_of z i <= 86400 /\
+    tt_cmax ty = cos (max64 + off_of z i) /\ tt_cmin ty = cos (min64 + off_of z i) /\
+    0 <= tt_abbr ty <= Z.of_nat (length (z_abbrs z)).
+Proof.
+  intros F Hi. unfold idx_ok in Hi. rewrite andb_true_iff, Z.leb_le, Z.ltb_lt in Hi.
+  unfold nth_res, off_of.
+  destruct (Z.ltb_spec i 0); [lia|].
+  destruct (nth_error (z_types z) (Z.to_nat i)) as [ty|] eqn:E.
+  2:{ apply nth_error_None in E. lia. }
+  exists ty. split; [reflexivity|]. split; [reflexivity|].
+  pose proof (zf_types z F ty (nth_error_In _ _ E)) as T.
+  unfold type_ok in T. rewrite !andb_true_iff, !Z.leb_le, !fields_eqb_eq in T.
+  destruct T as [[[[[T1 T2] T3] T4] T5] T6]. repeat split; auto.
+Qed.
+
+Lemma off_bound z i : zfacts z -> idx_ok z i = true -> -86400 <= off_of z i <= 86400.
+Proof. intros F Hi. destruct (type_facts z i F Hi) as (ty & _ & _ & H & _). exact H. Qed.
+
+Lemma doff_bound z : zfacts z -> -86400 <= doff z <= 86400.
+Proof. intros F. apply off_bound; auto. apply zf_dflt; auto. Qed.
+
+(* offset in force before index i is a bounded offset *)
+Lemma ob_bound z i : zfacts z -> -86400 <= ob (doff z) (absl z) i <= 86400.
+Proof.
+  intros F. destruct i as [|j]; cbn [ob]; [apply doff_bound; auto|].
+  rewrite absl_nth. destruct (nth_error (z_trans z) j) as [tr|] eqn:E; cbn [option_map].
+  - cbn [absf zt_off]. apply off_bound; auto.
+    apply (zf_trs z F tr). eapply nth_error_In; eauto.
+  - apply doff_bound; auto.
+Qed.
+
+Lemma civils_nth z : forall l po i tr, civils_ok z po l = true -> nth_error l i = Some tr ->
+  tr_cs tr = cos (tr_time tr + off_of z (tr_type tr)) /\
+  tr_pcs tr = cos (tr_time tr - 1 + ob po (map (absf z) l) i).
+Proof.
+  induction l as [|x r IH]; intros po i tr Hc Hn.
+  - destruct i; discriminate.
+  - cbn [civils_ok] in Hc. rewrite !andb_true_iff, !fields_eqb_eq in Hc.
+    destruct Hc as [[C1 C2] C3].
+    destruct i as [|i]; cbn [nth_error] in Hn.
+    + inversion Hn; subst x. cbn [ob]. auto.
+    + destruct (IH _ i tr C3 Hn) as [A B]. split; [exact A|].
+      rewrite B. destruct i as [|i']; cbn [ob map nth_error]; reflexivity.
+Qed.
+
+(* everything about transition number i *)
+Lemma tr_facts z i tr : zfacts z -> nth_error (z_trans z) i = Some tr ->
+  idx_ok z (tr_type tr) = true /\ - 2 ^ 59 <= tr_time tr <= 2 ^ 60 /\
+  -86400 <= off_of z (tr_type tr) <= 86400 /\
+  tr_cs tr = cos (tr_time tr + off_of z (tr_type tr)) /\
+  tr_pcs tr = cos (tr_time tr - 1 + ob (doff z) (absl z) i) /\
+  nth_error (absl z) i = Some (absf z tr).
+Proof.
+  intros F Hn.
+  destruct (zf_trs z F tr (nth_error_In _ _ Hn)) as [A B].
+  destruct (civils_nth z _ _ _ _ (zf_civ z F) Hn) as [C D].
+  repeat split; auto; try lia.
+  - apply off_bound; auto.
+  - apply off_bound; auto.
+  - rewrite absl_nth, Hn. reflexivity.
+Qed.
+
+Lemma times_sorted_of_ti z : forall l, times_increasing (map (absf z) l) = true -> times_sorted_l l = true.
+Proof.
+  induction l as [|a r IH]; [reflexivity|]. destruct r as [|b r']; [reflexivity|].
+  cbn [map] in *. rewrite ti_cons2. cbn [absf zt_time].
+  intros H. apply andb_true_iff in H. destruct H as [H1 H2].
+  change (times_sorted_l (a :: b :: r')) with ((tr_time a <? tr_time b) && times_sorted_l (b :: r')).
+  rewrite H1. cbn [andb]. apply IH. exact H2.
+Qed.
+
+Lemma zf_times_sorted z : zfacts z -> times_sorted_l (z_trans z) = true.
+Proof. intros F. apply (times_sorted_of_ti z). exact (zf_ti z F). Qed.
+
+Lemma civil_sorted_of_adj : forall l,
+  (forall i a b, nth_error l i = Some a -> nth_error l (S i) = Some b -> lt64 (tr_cs a) (tr_cs b) = true) ->
+  civil_sorted_l l = true.
+Proof.
+  induction l as [|a r IH]; [reflexivity|]. destruct r as [|b r']; [reflexivity|].
+  intros H.
+  change (civil_sorted_l (a :: b :: r')) with (lt64 (tr_cs a) (tr_cs b) && civil_sorted_l (b :: r')).
+  rewrite (H O a b eq_refl eq_refl). cbn [andb]. apply IH.
+  intros i x y Hx Hy. apply (H (S i)); assumption.
+Qed.
+
+Lemma zf_civil_sorted z : zfacts z -> civil_sorted_l (z_trans z) = true.
+Proof.
+  intros F. apply civil_sorted_of_adj. intros i a b Ha Hb.
+  destruct (tr_facts z i a F Ha) as (_ & _ & _ & Ca & _ & Na).
+  destruct (tr_facts z (S i) b F Hb) as (_ & _ & _ & Cb & _ & Nb).
+  rewrite Ca, Cb, lt_cc. apply Z.ltb_lt.
+  destruct (zf_wf z F) as (_ & SA & _).
+  exact (SA i (S i) _ _ ltac:(lia) Na Nb).
+Qed.
+
+Lemma pp_upper_idx z t : forall l,
+  partition_point (fun tr => t <? tr_time tr) l = upper_idx (map (absf z) l) t.
+Proof.
+  induction l as [|a r IH]; [reflexivity|].
+  cbn [partition_point map upper_idx absf zt_time]. rewrite IH. reflexivity.
+Qed.
+
+Lemma pp_ext {A} (p q : A -> bool) : forall l, (forall x, In x l -> p x = q x) ->
+  partition_point p l = partition_point q l.
+Proof.
+  induction l as [|a r IH]; intros H; [reflexivity|].
+  cbn [partition_point]. rewrite (H a (or_introl eq_refl)).
+  rewrite IH; [reflexivity|]. intros x Hx. apply H. right; exact Hx.
+Qed.
+
+Lemma pp_upper_civil z L : forall l,
+  partition_point (fun tr => L <? at_ (absf z tr)) l = upper_civil (map (absf z) l) L.
+Proof.
+  induction l as [|a r IH]; [reflexivity|].
+  cbn [partition_point map upper_civil]. rewrite IH. reflexivity.
+Qed.
+
+(* ================================================================== *)
+(* BreakTime                                                           *)
+
+Lemma nth_tr_some z i tr : nth_error (z_trans z) i = Some tr -> nth_tr z i = OK tr.
+Proof. intros H. unfold nth_tr. rewrite H. reflexivity. Qed.
+
+(* the selected transition is never more than an int64 away *)
+Lemma nearby_transition z t k tr : zfacts z -> int64 t ->
+  upper_idx (absl z) t = S k -> nth_error (z_trans z) k = Some tr ->
+  tr_time tr <= t /\ int64 (t - tr_time tr).
+Proof.
+  intros F Ht Hk Hn.
+  destruct (tr_facts z k tr F Hn) as (_ & HT & _ & _ & _ & Na).
+  destruct (zf_wf z F) as (ST & _).
+  pose proof (upper_idx_char (absl z) t ST k _ Na) as C. cbn [absf zt_time] in C.
+  assert (tr_time tr <= t) as Hle by (apply C; lia).
+  split; [exact Hle|].
+  destruct (Z_lt_le_dec (tr_time tr) 0) as [Hneg|Hpos].
+  2:{ unfold int64, min64, max64 in *. lia. }
+  destruct (zf_last z F) as (l & Hl & Hl0).
+  destruct (last_opt_nth _ _ Hl) as [Hln Hlen].
+  assert (S k < length (z_trans z))%nat as Hlt.
+  { pose proof (nth_some_lt _ _ _ Hn) as H1.
+    destruct (Nat.eq_dec (S k) (length (z_trans z))) as [E|E]; [|lia].
+    replace (length (z_trans z) - 1)%nat with k in Hln by lia.
+    assert (l = tr) by congruence. subst. lia. }
+  destruct (nth_lt_some (z_trans z) (S k) Hlt) as [tr' Hn'].
+  destruct (tr_facts z (S k) tr' F Hn') as (_ & HT' & _ & _ & _ & Na').
+  pose proof (upper_idx_char (absl z) t ST (S k) _ Na') as C'. cbn [absf zt_time] in C'.
+  assert (t < tr_time tr') by lia.
+  unfold int64, min64, max64 in *. lia.
+Qed.
+
+Lemma local_time_tr_ok z t k tr : zfacts z -> int64 t ->
+  upper_idx (absl z) t = S k -> nth_error (z_trans z) k = Some tr ->
+  exists dst ab,
+    local_time_tr z t tr = OK (mkAL (cos (t + off_of z (tr_type tr))) (off_of z (tr_type tr)) dst ab)
+    /\ info_of z (tr_type tr) = OK (dst, ab).
+Proof.
+  intros F Ht Hk Hn.
+  destruct (nearby_transition z t k tr F Ht Hk Hn) as [Hle Hd].
+  destruct (tr_facts z k tr F Hn) as (Hi & HT & HO & Ccs & _ & _).
+  destruct (type_facts z _ F Hi) as (ty & Hty & Eoff & _ & _ & _ & Hab).
+  exists (tt_isdst ty), (c_str (skipn (Z.to_nat (tt_abbr ty)) (z_abbrs z))).
+  unfold local_time_tr, info_of. rewrite Hty. cbn [bind].
+  unfold sub64. rewrite chk64_in by exact Hd. cbn [bind].
+  rewrite Ccs.
+  rewrite plus_cos.
+  - cbn [bind]. rewrite cstr_from_ok by exact Hab. cbn [bind]. rewrite Eoff.
+    split; [|reflexivity]. do 3 f_equal. lia.
+  - unfold SB. lia.
+  - exact Hd.
+  - unfold SB, int64, min64, max64 in *. lia.
+Qed.
+
+Lemma zbreak_abs z t : zfacts z ->
+  match upper_idx (absl z) t with
+  | O => (doff z, z_default z)
+  | S k => match nth_error (absl z) k with
+           | Some tr => (zt_off tr, zt_id tr)
+           | None => (doff z, z_default z)
+           end
+  end = (zoff (abs_zone z) t, zid (abs_zone z) t).
+Proof.
+  intros F. rewrite <- (zbreak_spec_lemma (abs_zone z) t) by exact (zf_ti z F). reflexivity.
+Qed.
+
+Lemma break_noext_ok z t : zfacts z -> int64 t ->
+  exists h' dst ab,
+    break_time_noext z 0 t =
+      OK (mkAL (cos (t + zoff (abs_zone z) t)) (zoff (abs_zone z) t) dst ab, h')
+    /\ info_of z (zid (abs_zone z) t) = OK (dst, ab).
+Proof.
+  intros F Ht.
+  destruct (zf_first z F) as (f & r & Hfr & Hf0).
+  destruct (zf_last z F) as (l & Hl & Hl0).
+  destruct (last_opt_nth _ _ Hl) as [Hln Hlen].
+  pose proof (zbreak_abs z t F) as ZB.
+  destruct (zf_wf z F) as (ST & _).
+  assert (Hn0 : nth_error (z_trans z) 0 = Some f) by (rewrite Hfr; reflexivity).
+  unfold break_time_noext. rewrite (nth_tr_some z 0 f Hn0), Hl. cbn [bind].
+  destruct (Z.ltb_spec t (tr_time f)) as [Hlt|Hge].
+  - (* before the first transition: the default type *)
+    assert (upper_idx (absl z) t = O) as E0.
+    { unfold absl. rewrite Hfr. cbn [map upper_idx absf zt_time].
+      destruct (Z.ltb_spec t (tr_time f)); [reflexivity|lia]. }
+    rewrite E0 in ZB. inversion ZB as [[Eo Ei]]. rewrite <- Ei.
+    destruct (type_facts z _ F (zf_dflt z F)) as (ty & Hty & Eoff & HO & _ & _ & Hab).
+    fold (doff z) in Eoff, HO.
+    rewrite Hty. cbn [bind].
+    rewrite local_time_tt_ok by (try exact Ht; try exact Hab; lia). cbn [bind].
+    exists 0, (tt_isdst ty), (c_str (skipn (Z.to_nat (tt_abbr ty)) (z_abbrs z))).
+    rewrite Eoff. split; [reflexivity|].
+    unfold info_of. rewrite Hty. cbn [bind]. rewrite cstr_from_ok by exact Hab. reflexivity.
+  - (* at or after some transition *)
+    assert (exists k, upper_idx (absl z) t = S k) as [k Hk].
+    { destruct (upper_idx (absl z) t) eqn:E; [|eauto].
+      destruct (tr_facts z 0 f F Hn0) as (_ & _ & _ & _ & _ & Na).
+      pose proof (upper_idx_char (absl z) t ST 0%nat _ Na) as C. cbn [absf zt_time] in C. lia. }
+    pose proof (upper_idx_le (absl z) t) as Hle. rewrite absl_length in Hle.
+    destruct (nth_lt_some (z_trans z) k ltac:(lia)) as [tr Hn].
+    destruct (local_time_tr_ok z t k tr F Ht Hk Hn) as (dst & ab & HL & HI).
+    rewrite Hk in ZB. rewrite absl_nth, Hn in ZB. cbn [option_map absf zt_off zt_id] in ZB.
+    inversion ZB as [[Eo Ei]]. rewrite <- Ei.
+    destruct (Z.leb_spec (tr_time l) t) as [Hlast|Hin].
+    + (* the last transition *)
+      assert (k = (length (z_trans z) - 1)%nat) as Ek.
+      { destruct (Nat.eq_dec (S k) (length (z_trans z))) as [E|E]; [lia|]. exfalso.
+        destruct (tr_facts z _ l F Hln) as (_ & _ & _ & _ & _ & Na).
+        pose proof (upper_idx_char (absl z) t ST _ _ Na) as C. cbn [absf zt_time] in C.
+        rewrite Hk in C. lia. }
+      rewrite <- Ek in Hln. assert (l = tr) by congruence. subst l.
+      rewrite HL. cbn [bind]. exists 0, dst, ab. split; [reflexivity|exact HI].
+    + unfold break_inner. change (0 <? 0) with false. cbn [andb bind].
+      rewrite bound_search_ok by (apply times_sorted_part_ub; apply zf_times_sorted; exact F).
+      cbn [bind]. rewrite (pp_upper_idx z). fold (absl z). rewrite Hk.
+      rewrite (nth_tr_some z k tr Hn). cbn [bind]. rewrite HL. cbn [bind].
+      eexists _, dst, ab. split; [reflexivity|exact HI].
+Qed.
+
+Lemma res_fst_OK {A} (r : res (A * Z)) a : res_fst r = OK a -> exists h, r = OK (a, h).
+Proof.
+  destruct r as [[a' h]|e]; cbn [res_fst]; intros H; [|discriminate].
+  inversion H; subst. eauto.
+Qed.
+
+Lemma break_refines_lemma : forall z h t, zone_ok z = true -> int64 t ->
+  (z_extended z = false \/ (forall l, last_opt (z_trans z) = Some l -> t < tr_time l)) ->
+  exists h' dst ab,
+    break_time z h t = OK (mkAL (civil_of_seconds (t + zoff (abs_zone z) t)) (zoff (abs_zone z) t) dst ab, h')
+    /\ info_of z (zid (abs_zone z) t) = OK (dst, ab).
+Proof.
+  intros z h t Hok Ht Hext. pose proof (zone_ok_facts z Hok) as F.
+  destruct (break_noext_ok z t F Ht) as (h0 & dst & ab & HB & HI).
+  assert (break_time z 0 t = break_time_noext z 0 t) as E0.
+  { destruct (zf_first z F) as (f & r & Hfr & _).
+    destruct (zf_last z F) as (l & Hl & _).
+    assert (Hn0 : nth_error (z_trans z) 0 = Some f) by (rewrite Hfr; reflexivity).
+    unfold break_time. rewrite Hl, (nth_tr_some z 0 f Hn0). cbn [bind].
+    assert (negb (t <? tr_time f) && (tr_time l <=? t) && z_extended z = false) as ->; [|reflexivity].
+    destruct Hext as [He|He].
+    - rewrite He. apply andb_false_r.
+    - specialize (He l Hl). destruct (Z.leb_spec (tr_time l) t); [lia|].
+      rewrite andb_false_r. reflexivity. }
+  pose proof (break_time_hint z h t (zf_times_sorted z F)) as Hh.
+  rewrite E0, HB in Hh. cbn [res_fst] in Hh.
+  destruct (res_fst_OK _ _ Hh) as [h' Hr].
+  exists h', dst, ab. split; [exact Hr|exact HI].
+Qed.
